@@ -103,6 +103,15 @@ def main(tier):
                       {"cmd": "clean", "argv": ["clean", "-f"]},
                       {"cmd": "restore", "argv": ["restore", "../A.tar.gz"], "archive": "../A.tar.gz", "defect": "none", "label": "target"}]}
     base.append(bulk)
+    # a fault at the COMMIT point that is not a kill: another process is in the middle of reading the index (the explorer, a
+    # second `cond`), so SQLite cannot take the exclusive lock the commit needs - the restore cannot complete
+    lk_rng = random.Random(rng.randrange(1 << 30))
+    lk = scenario(lk_rng, k + 1, defect=("none", None, None), prior="other", stale=False, v1index=False)
+    for st_ in lk["steps"]:
+        if st_.get("label") == "target":
+            st_["reader"], st_["defect"], st_["count"] = True, "index_locked", False
+    lk["_meta"]["prior"] = "locked"
+    base.append(lk)
     hists, traces, verdicts, tr, other, nontriv = F.run_and_judge(rep, base, CLAUSES, sig_fn=sig)
     # pass 2: kill the target restore before every effectful call
     crash_scns = []
